@@ -29,7 +29,7 @@ import (
 
 func init() {
 	Register(&Check{ID: "C23", World: "B/cluster", Gen: genResp, Run: runResp, Real: bReal, Stub: bStub,
-		OwnProbes: []string{"env_lookup_failed", "env_lookup_timeout", "body_read_error", "malformed_body", "queue_full_429", "otlp_traces", "otlp_logs", "invalid_event_in_batch", "whole_request_error_checked"}})
+		OwnProbes: []string{"env_lookup_failed", "env_lookup_timeout", "body_read_error", "malformed_body", "queue_full_429", "otlp_traces", "otlp_logs", "invalid_event_in_batch", "whole_request_error_checked", "compressed_body", "undecodable_compressed_body", "request_overlaps_slow_lookup"}})
 }
 
 func genResp(r *Rng, tier string, p *Plan) {
@@ -48,6 +48,8 @@ func genResp(r *Rng, tier string, p *Plan) {
 	now := int64(0)
 	mk := 0
 	authMode := "ok"
+	slowNext := false
+	lastAt := int64(0)
 	if park {
 		p.Add(Op{K: "park", At: 50_000})
 	}
@@ -77,7 +79,32 @@ func genResp(r *Rng, tier string, p *Plan) {
 		case 2:
 			op.M |= 4 // one invalid (empty) event in a batch
 		}
+		// how the body travels
+		if kind == "batch" || kind == "event" {
+			switch r.Intn(10) {
+			case 0, 1:
+				op.M |= 8 // zstd
+			case 2:
+				op.M |= 16 // zstd that does not decode
+			case 3:
+				op.M |= 32 // gzip
+			}
+		}
+		if slowNext {
+			// lands while the previous request (environment key, slow lookup) is in
+			// progress: a legacy key, so that it does not wait for that lookup
+			op.M &^= 1
+			op.At = now - PickOf(r, int64(100_000), 100_000, 300_000, 1_000_000) + 100_000
+			if op.At <= lastAt {
+				op.At = lastAt + 50_000
+			}
+			slowNext = false
+		}
+		lastAt = op.At
 		p.Add(op)
+		if authMode == "slow" && op.M&1 != 0 {
+			slowNext = true
+		}
 		if authMode == "timeout" && op.M&1 != 0 {
 			// the lookup hangs for the client's 10s timeout while holding the
 			// environment cache's mutex; a second request on that cache would
@@ -87,7 +114,7 @@ func genResp(r *Rng, tier string, p *Plan) {
 		}
 		// auth mode changes
 		if r.Bool(0.35) {
-			authMode = PickOf(r, "ok", "ok", "fail", "unauthorized", "timeout")
+			authMode = PickOf(r, "ok", "ok", "slow", "slow", "fail", "unauthorized", "timeout")
 			p.Add(Op{K: "auth", At: now + 50_000, S: authMode})
 		}
 	}
@@ -221,7 +248,7 @@ func runResp(t *testing.T, p *Plan) *Outcome {
 						}
 						evs = append(evs, ev)
 					}
-					rr.req = &bRequest{id: op.ID, node: int(op.I), endpoint: op.T, enc: op.S, apiKey: key, dataset: "ds", events: evs, bodyErr: op.B, garbage: op.M&2 != 0}
+					rr.req = &bRequest{id: op.ID, node: int(op.I), endpoint: op.T, enc: op.S, apiKey: key, dataset: "ds", events: evs, bodyErr: op.B, garbage: op.M&2 != 0, compress: map[int64]string{8: "zstd", 16: "zstd_bad", 32: "gzip"}[op.M&56]}
 				default:
 					var body []byte
 					path := "/v1/traces"
@@ -290,6 +317,7 @@ func runResp(t *testing.T, p *Plan) *Outcome {
 		w.mu.Unlock()
 		const site = "route.Router"
 		var log []string
+		nodeMissing, node429 := map[int]int{}, map[int]int{}
 		for _, rr := range reqs {
 			r := rr.req
 			desc := fmt.Sprintf("request op#%d (%s/%s to n%d, envkey=%v, bodyErr=%v, malformed=%v, events %v)", rr.op.ID, rr.kind, rr.op.S, r.node, rr.envKey, rr.op.B, rr.op.M&2 != 0, rr.markers)
@@ -318,6 +346,12 @@ func runResp(t *testing.T, p *Plan) *Outcome {
 			}
 			if rr.op.M&2 != 0 {
 				out.Probe("malformed_body")
+			}
+			if rr.op.M&(8|32) != 0 {
+				out.Probe("compressed_body")
+			}
+			if rr.op.M&16 != 0 {
+				out.Probe("undecodable_compressed_body")
 			}
 			if rr.kind == "otlp_traces" {
 				out.Probe("otlp_traces")
@@ -356,11 +390,18 @@ func runResp(t *testing.T, p *Plan) *Outcome {
 							out.Violate("C23", "invalid_event_processed", site+".batch", "%s: invalid event %s reached Honeycomb", desc, mk)
 						}
 					case resps[i].Status == 202:
+						if got == 0 && peerBy[mk] > 0 && out.Faults["auth_failure"]+out.Faults["auth_unauthorized"]+out.Faults["auth_timeout"] > 0 {
+							// forwarded to its owner, whose own environment lookup may have met
+							// the injected failure (second hop, after this answer was given)
+							out.Probe("loss_exempt_owner_lookup_failed")
+							break
+						}
 						if got != 1 {
 							out.Violate("C23", "accepted_event_not_accounted_once", site+".batch", "%s: event %s was answered 202 but reached Honeycomb %d times", desc, mk, got)
 						}
 					case resps[i].Status == 429:
 						out.Probe("queue_full_429")
+						node429[r.node]++
 						if got != 0 {
 							out.Violate("C23", "refused_event_processed", site+".batch", "%s: event %s was answered 429 but reached Honeycomb %d times", desc, mk, got)
 						}
@@ -379,15 +420,35 @@ func runResp(t *testing.T, p *Plan) *Outcome {
 						out.Violate("C23", "accepted_event_not_accounted_once", site+"."+rr.kind, "%s: event %s reached Honeycomb %d times", desc, mk, hnyBy[mk])
 					}
 					if hnyBy[mk] == 0 {
+						if peerBy[mk] > 0 && out.Faults["auth_failure"]+out.Faults["auth_unauthorized"]+out.Faults["auth_timeout"] > 0 {
+							// it was forwarded to its owner, whose own environment lookup may
+							// have met the injected failure: the loss happened on the second
+							// hop, after this request had been answered truthfully
+							out.Probe("loss_exempt_owner_lookup_failed")
+							continue
+						}
 						missing++
 					}
 				}
 				if refused > 0 {
 					out.Probe("otlp_or_event_queue_full")
 				}
+				if out.Faults["auth_slow"] > 0 {
+					// requests overlap in this run (a slow lookup keeps one in progress
+					// while others come and go): the refusal counter cannot be read
+					// "around" one request, so the account is made per node below
+					nodeMissing[r.node] += missing
+					break
+				}
 				if missing > refused {
 					out.Violate("C23", "success_but_events_discarded", site+"."+rr.kind, "%s was answered %d but %d of its events never reached Honeycomb and only %d were refused by a full queue", desc, st, missing, refused)
 				}
+			}
+		}
+		for nd, missing := range nodeMissing {
+			total, _ := w.nodes[nd].mm.Get("incoming_router_dropped")
+			if refused := int(total) - node429[nd]; missing > refused {
+				out.Violate("C23", "success_but_events_discarded", site, "node n%d: requests without per-event statuses were answered with success, %d of their events never reached Honeycomb, but only %d events were refused by a full queue (%d in all, %d of them reported as 429 in batch responses)", nd, missing, refused, int(total), node429[nd])
 			}
 		}
 		if out.Faults["auth_failure"]+out.Faults["auth_unauthorized"] > 0 {
